@@ -233,7 +233,7 @@ def zeros_like(a, dtype=None, order = 'C'):
     """
     if dtype is None:
         dtype = a
-    return zeros( a.shape, dtype=dtype, order = order)
+    return zeros( numpy.shape(a), dtype=dtype, order = order)
 zeros_like.__doc__ += numpy.zeros_like.__doc__
 
 
@@ -243,7 +243,7 @@ def ones_like(a, dtype=None, order = 'C'):
     """
     if dtype is None:
         dtype = a
-    return ones( a.shape, dtype=dtype, order = order)
+    return ones( numpy.shape(a), dtype=dtype, order = order)
 ones_like.__doc__ += numpy.ones_like.__doc__
 
 
